@@ -87,8 +87,11 @@ func checkList(c listCase) error {
 			continue
 		}
 		if i == c.Empty {
-			with = append(with, recipe.Empty())
-			without = append(without, recipe.Empty())
+			// Empty() in its various spellings: alone, or after / before tokens that are null
+			variants := []*recipe.Node{recipe.Empty(), recipe.S().C("Null").C("Empty"), recipe.S().C("Add", recipe.Nil()).C("Empty"), recipe.S().C("Empty").C("Null"), recipe.S().C("List").C("Empty"), recipe.S().C("Add", recipe.S().C("Empty"))}
+			e := variants[(int(c.Mask)+c.Arity+len(c.Kinds))%len(variants)]
+			with = append(with, e)
+			without = append(without, e.Clone())
 			marked = append(marked, recipe.Id("MARK"))
 			continue
 		}
